@@ -281,3 +281,18 @@ Fixpoint wf_ty (t : ty) : Prop :=
    lengths fit the 256-bit length word *)
 Definition cfg_ok (c : cfg) : Prop :=
   forall name arr, cand c name arr <> [] /\ Forall (fun n => Z.of_nat n < W256) (cand c name arr).
+
+(* the elementary type names occurring in a type description *)
+Fixpoint leaves (t : ty) : list str :=
+  match t with
+  | Base s => [s]
+  | Fixed t' _ => leaves t'
+  | Dyn t' => leaves t'
+  | Tuple its => flat_map (fun it => leaves (snd it)) its
+  end.
+
+(* lexically an elementary ABI type name: address, bool, string, or uint/int/bytes followed
+   by decimal digits (possibly none).  [classify] additionally checks the width. *)
+Definition lex_elementary (s : str) : Prop :=
+  s = s_address \/ s = s_bool \/ s = s_string \/
+  exists d, forallb is_digit d = true /\ (s = s_uint ++ d \/ s = s_int ++ d \/ s = s_bytes ++ d).
